@@ -62,15 +62,15 @@ static void mode_layout(void){
 }
 
 /* ---------------------------------------------------------------- dec / enc shared: twins */
-#define MAXS 8
-typedef struct { int S,C,ch; unsigned char map[16]; OpusMSDecoder *mf,*m16,*m24; OpusDecoder *tf[MAXS],*t16[MAXS],*t24[MAXS]; int Fs; } twinset;
+#define MAXS 20
+typedef struct { int S,C,ch; unsigned char map[32]; OpusMSDecoder *mf,*m16,*m24; OpusDecoder *tf[MAXS],*t16[MAXS],*t24[MAXS]; int Fs; } twinset;
 static int twins_create(twinset *t,int Fs,int ch,int S,int C,const unsigned char *map){ int err; memset(t,0,sizeof *t); t->S=S; t->C=C; t->ch=ch; t->Fs=Fs; memcpy(t->map,map,ch);
   t->mf=opus_multistream_decoder_create(Fs,ch,S,C,map,&err); t->m16=opus_multistream_decoder_create(Fs,ch,S,C,map,&err); t->m24=opus_multistream_decoder_create(Fs,ch,S,C,map,&err); if(!t->mf||!t->m16||!t->m24) return -1;
   for(int s=0;s<S;s++){ int c=s<C?2:1; t->tf[s]=opus_decoder_create(Fs,c,&err); t->t16[s]=opus_decoder_create(Fs,c,&err); t->t24[s]=opus_decoder_create(Fs,c,&err); } return 0; }
 static void twins_free(twinset *t){ if(t->mf) opus_multistream_decoder_destroy(t->mf); if(t->m16) opus_multistream_decoder_destroy(t->m16); if(t->m24) opus_multistream_decoder_destroy(t->m24); for(int s=0;s<t->S;s++){ if(t->tf[s]) opus_decoder_destroy(t->tf[s]); if(t->t16[s]) opus_decoder_destroy(t->t16[s]); if(t->t24[s]) opus_decoder_destroy(t->t24[s]); } }
 /* decode one multistream packet (or loss) on the multistream decoders and on the twins; returns 0 ok, 1 violation reported */
 static int twins_step(twinset *t,const unsigned char *p,int len,int fsz,int fec,const char *ctx){
-  static float of[5760*16], tfb[MAXS][5760*2]; static opus_int16 o16[5760*16], t16b[MAXS][5760*2]; static opus_int32 o24[5760*16], t24b[MAXS][5760*2]; static unsigned char one[MAXS][8000]; int ol[MAXS]; int ch=t->ch,S=t->S,C=t->C;
+  static float of[5760*20], tfb[MAXS][5760*2]; static opus_int16 o16[5760*20], t16b[MAXS][5760*2]; static opus_int32 o24[5760*20], t24b[MAXS][5760*2]; static unsigned char one[MAXS][8000]; int ol[MAXS]; int ch=t->ch,S=t->S,C=t->C;
   int lost=(p==NULL||len==0); int valid=1; int dur=-1;
   if(!lost){ int off=0; for(int s=0;s<S&&valid;s++){ rfc_pkt m; rfc_parse(p+off,len-off,s!=S-1,&m); if(!m.valid){ valid=0; break; } int d=m.count*rfc_spf(p[off],t->Fs); if(dur<0) dur=d; else if(d!=dur) valid=0; if(s!=S-1){ int c; ol[s]=vk_from_selfdelim(p+off,len-off,one[s],&c); if(ol[s]<0||ol[s]>8000) valid=0; } else { ol[s]=len-off; if(ol[s]>8000) valid=0; else memcpy(one[s],p+off,ol[s]); } off+=m.consumed; } if(valid&&dur>fsz&&!fec) valid=-1; /* too small a buffer */ }
   int rf=opus_multistream_decode_float(t->mf,p,len,of,fsz,fec), r16=opus_multistream_decode(t->m16,p,len,o16,fsz,fec), r24=opus_multistream_decode24(t->m24,p,len,o24,fsz,fec); vc_count("ms_decode_calls",1);
@@ -87,7 +87,7 @@ static int twins_step(twinset *t,const unsigned char *p,int len,int fsz,int fec,
 
 /* ---------------------------------------------------------------- dec */
 static void mode_dec(void){
-  vc_rng r; vc_case_rng(&r,24); int err; int Fs=VC_PICK(&r,vk_rates); int S=vc_range(&r,1,vc_chance(&r,1,4)?MAXS:4), C=vc_below(&r,S+1); int tot=S+C; int ch=vc_range(&r,1,12); unsigned char map[16];
+  vc_rng r; vc_case_rng(&r,24); int err; int Fs=VC_PICK(&r,vk_rates); int S=vc_range(&r,1,vc_chance(&r,1,4)?8:4), C=vc_below(&r,S+1); int tot=S+C; int ch=vc_range(&r,1,12); unsigned char map[16];
   for(int i=0;i<ch;i++) map[i]= vc_chance(&r,1,6)?255:(unsigned char)vc_below(&r,tot);   /* duplicates and muted channels are legal for a decoder */
   twinset t; if(twins_create(&t,Fs,ch,S,C,map)){ vc_viol("dec:create","decoder create failed for a legal layout"); return; }
   /* one encoder per stream, same frame size for all */
@@ -110,14 +110,16 @@ static void mode_dec(void){
 /* ---------------------------------------------------------------- enc */
 static void mode_enc(void){
   vc_rng r; vc_case_rng(&r,25); int err; int Fs=VC_PICK(&r,vk_rates), app=VC_PICK(&r,vk_apps); static const int fams[4]={0,1,255,2}; int fam=VC_PICK(&r,fams); int ch;
-  if(fam==0) ch=vc_range(&r,1,2); else if(fam==1) ch=vc_range(&r,1,8); else if(fam==255) ch=vc_range(&r,1,8); else { static const int ac[]={1,3,4,6,9,11}; ch=VC_PICK(&r,ac); }
+  if(fam==0) ch=vc_range(&r,1,2); else if(fam==1) ch=vc_range(&r,1,8); else if(fam==255) ch=vc_chance(&r,1,5)?vc_range(&r,9,18):vc_range(&r,1,8); else { static const int ac[]={1,3,4,6,9,11,16,18}; ch=VC_PICK(&r,ac); }
   int S,C; unsigned char map[255]; OpusMSEncoder *me=opus_multistream_surround_encoder_create(Fs,ch,fam,&S,&C,map,app,&err); if(!me){ vc_viol("enc:create","family %d ch %d: %d",fam,ch,err); return; }
   if(S>MAXS){ opus_multistream_encoder_destroy(me); return; }
   twinset t; if(twins_create(&t,Fs,ch,S,C,map)){ vc_viol("enc:create","decoder create failed"); return; }
   opus_multistream_encoder_ctl(me,OPUS_SET_BITRATE(vc_chance(&r,1,4)?OPUS_AUTO:vc_range(&r,12000,96000)*ch)); if(vc_chance(&r,1,3)) opus_multistream_encoder_ctl(me,OPUS_SET_VBR(0));
   vc_siggen g; vs_init(&g,vc_chance(&r,1,2)?VS_WHITE:(int)vc_below(&r,VS_NFINITE),Fs,ch,0.5f,vc_next(&r)); float *in=(float*)malloc(sizeof(float)*5760*ch); static unsigned char pk[MAXS*8000]; int fidx=vc_below(&r,9); char ctx[100];
-  for(int k=0;k<8;k++){ if(vc_chance(&r,1,4)) fidx=vc_below(&r,9); int fs=vk_frame_samples(Fs,fidx); vs_fill(&g,in,fs); int len=opus_multistream_encode_float(me,in,fs,pk,sizeof pk); vc_count("ms_encode_calls",1);
-    if(len<=0){ vc_viol("enc:failed","family %d ch %d: encode returned %d",fam,ch,len); break; }
+  for(int k=0;k<8;k++){ if(vc_chance(&r,1,4)) fidx=vc_below(&r,9); int fs=vk_frame_samples(Fs,fidx); vs_fill(&g,in,fs); /* one call in three gets a hard cap on the packet size, from a few bytes per stream upwards (every stream still has room for a minimal frame) */
+    int cap=(int)sizeof pk; if(vc_chance(&r,1,3)){ cap=vc_range(&r,4*S+2,vc_chance(&r,1,2)?8*S+8:60*S); vc_count("ms_encode_calls_with_tight_cap",1); }
+    int len=opus_multistream_encode_float(me,in,fs,pk,cap); vc_count("ms_encode_calls",1);
+    if(len<=0||len>cap){ vc_viol("enc:failed","family %d ch %d (%d streams) frame %d samples at %d Hz, max_data_bytes %d: encode returned %d",fam,ch,S,fs,Fs,cap,len); break; }
     /* structure: S-1 self-delimited + 1 standard, all of the submitted duration */
     int off=0,ok=1; for(int s=0;s<S;s++){ rfc_pkt m; rfc_parse(pk+off,len-off,s!=S-1,&m); if(!m.valid){ vc_viol("enc:structure","family %d ch %d stream %d/%d: not a valid %s packet at offset %d of %d",fam,ch,s,S,s!=S-1?"self-delimited":"standard",off,len); ok=0; break; } if(m.count*rfc_spf(pk[off],Fs)!=fs){ vc_viol("enc:duration","stream %d announces %d samples, %d submitted",s,m.count*rfc_spf(pk[off],Fs),fs); ok=0; break; }
       { int audio=0; for(int q=0;q<m.count;q++) if(m.sizes[q]>1) audio=1; if(!audio) vc_count("enc_no_audio_stream_packets",1);
